@@ -41,7 +41,8 @@ VARIABLES imports,      \* imports[f]: sequence of distinct files
           paths, excludes,
           wktSupplied,
           noSyntaxD,    \* d.proto has no syntax declaration
-          planted,      \* "none" | "missing-import" (in a) | "syntax" (in c) | "unresolved" (in b)
+          planted,      \* "none" | "missing-import" (in a) | "syntax" (in c) | "unresolved" (in b) | "bad-package" (in b: a
+                        \* package statement that does not scan, which the scan for the files of a package meets first)
           protoRef,     \* a single .proto file of module A given as the input ("none": the modules are the input)
           includePkg,   \* ...#include_package_files=true
           pkgMode       \* "distinct": every file its own package; "ab-same": a and b share one; "ab-none": a and b declare none
@@ -59,17 +60,20 @@ Init ==
   /\ paths \in PathChoices /\ excludes \in ExcludeChoices
   /\ wktSupplied \in BOOLEAN
   /\ noSyntaxD \in BOOLEAN
-  /\ planted \in {"none", "missing-import", "syntax", "unresolved"}
+  /\ planted \in {"none", "missing-import", "syntax", "unresolved", "bad-package"}
   /\ protoRef \in {"none", "a", "b", "c"} /\ includePkg \in BOOLEAN /\ pkgMode \in {"distinct", "ab-same", "ab-none"}
   \* a file reference replaces every other selection and makes module A the only target
-  /\ (protoRef # "none" => (targetA /\ ~targetB /\ paths = {} /\ excludes = {} /\ planted = "none" /\ unused = <<>> /\ ~wktSupplied /\ ~noSyntaxD
+  /\ (protoRef # "none" => (targetA /\ ~targetB /\ paths = {} /\ excludes = {} /\ planted \in {"none", "bad-package"} /\ unused = <<>> /\ ~wktSupplied /\ ~noSyntaxD
                              /\ Len(imports["a"]) <= 1))
   /\ (protoRef = "none" => (~includePkg /\ pkgMode = "distinct"))
   /\ (IF paths # {} THEN 1 ELSE 0) + (IF excludes # {} THEN 1 ELSE 0) + (IF (targetA /\ targetB) \/ protoRef # "none" THEN 0 ELSE 1)
        + (IF wktSupplied THEN 1 ELSE 0) + (IF noSyntaxD THEN 1 ELSE 0) + (IF unused # <<>> THEN 1 ELSE 0)
        + (IF protoRef # "none" THEN 1 ELSE 0) <= MaxDev
   \* planted errors are explored on the plain selection only
-  /\ (planted # "none" => (paths = {} /\ excludes = {} /\ targetA /\ targetB /\ unused = <<>> /\ ~noSyntaxD))
+  \* (and, for the package statement, on a file reference with include_package_files: every file of the module is
+  \*  scanned for its package then, so the error surfaces wherever the file is)
+  /\ (planted # "none" => (paths = {} /\ excludes = {} /\ unused = <<>> /\ ~noSyntaxD
+                            /\ ((targetA /\ targetB /\ protoRef = "none") \/ (planted = "bad-package" /\ protoRef = "a" /\ includePkg))))
 Next == UNCHANGED vars
 Spec == Init /\ [][Next]_vars
 
@@ -138,9 +142,10 @@ WktBuiltinUnlessSupplied == ("wkt" \in ImgSet /\ ~wktSupplied) => Entry("wkt").o
 ExcludeIsPathWise == (excludes = {<<"acme", "v1">>} /\ paths = {} /\ targetA) => IsTarget("b")
 
 \* which file a planted error is reported in
-PlantedFile == CASE planted = "missing-import" -> "a" [] planted = "syntax" -> "c" [] planted = "unresolved" -> "b" [] OTHER -> "none"
+PlantedFile == CASE planted = "missing-import" -> "a" [] planted = "syntax" -> "c" [] planted \in {"unresolved", "bad-package"} -> "b" [] OTHER -> "none"
 \* the error only surfaces if the file is compiled at all
-PlantedSurfaces == planted # "none" /\ PlantedFile \in Reach(Targets)
+\* (a referenced file without a package has no package files to look for: nothing is scanned)
+PlantedSurfaces == planted # "none" /\ (PlantedFile \in Reach(Targets) \/ (planted = "bad-package" /\ protoRef # "none" /\ includePkg /\ PkgOf(protoRef) # ""))
 
 EmitCase == Emit => PrintT(<<"CASE", ToJson(
   [imports |-> imports, unused |-> unused, targetA |-> targetA, targetB |-> targetB, paths |-> paths, excludes |-> excludes,
